@@ -127,6 +127,16 @@ def putBe32 (n : Nat) : Bytes :=
 /-- `writeDelimitedMessageRaw` -/
 def encode (m : Bytes) : Bytes := putBe32 m.length ++ m
 
+/-- One write of a message by any of the writers (`WriteDelimitedMessage`, `StreamEncoder.Encode`):
+`none` = the message cannot be encoded (marshalling fails): the writer returns the error and has
+written NOTHING; `some m` = prefix and message are appended.  All or nothing. -/
+def writeStep (s : Bytes) : Option Bytes → Bytes
+  | none => s
+  | some m => s ++ encode m
+
+/-- the stream after a history of writes, some of which failed -/
+def writeHistory (h : List (Option Bytes)) : Bytes := h.foldl writeStep []
+
 /-- what one `readDelimitedMessageRaw` / `DecodeNext` reports -/
 inductive Res
   | msg (b : Bytes)
